@@ -106,6 +106,12 @@ def correspondence(ctx):
     if rc != 0:
         raise V.BuildError('c07 case-variant class failed: ' + o[-2000:])
     V.evaluate_case_file(ctx, vout, ['model.CertConstraint'], corr=corr, max_samples=0)
+    # (g) history class: several certificates for ONE key pair in one process, each judged on its own
+    kout = os.path.join(ctx.dir, 'samekey.jsonl')
+    rc, o = ctx.run([binp, 'samekey', kout], 300)
+    if rc != 0:
+        raise V.BuildError('c07 same-key history failed: ' + o[-2000:])
+    V.evaluate_case_file(ctx, kout, ['model.CertConstraint'], corr=corr, max_samples=0)
     # coverage-guided differential fuzzing against the Go transcription of C07_attr_spec / C07_constraint_spec: the fuzzer
     # sees the library's coverage, so a count comparison, a cache or a redaction is a branch it tries to reach
     # (failing-input search only, never the proof)
@@ -140,6 +146,11 @@ def correspondence(ctx):
                  "host part / local part / both, URI host / path, organisation (ASCII and e-acute), common name: an exact constraint value "
                  "against a certificate value differing only in the case of one or all letters (both directions, rejected), the exact twins "
                  "(accepted), two spellings listed with one / the other / both carried, one listed with both carried; "
+                 "history class same-key-other-certificate (one process, one key pair, several certificates: good, issued by a foreign root, "
+                 "expired, other names, self-signed, re-issued): good first then each bad one then good again, and each bad one first then the "
+                 "good one, through Step.CheckCertConstraints; end to end through InTotoVerify: one verification with two steps whose links "
+                 "are signed by the same key and carry the good and a bad certificate (control: two good ones), and two verifications in a "
+                 "row (bad, then good); each certificate is judged on its own; "
                  "class sublayout-intermediates (end to end through InTotoVerify, files on disk): a signed super layout delegating a step "
                  "to a signed sublayout whose step is authorised by a certificate constraint (root list '*' and the root's id), leaf chaining "
                  "R -> I -> leaf / R -> I1 -> I2 -> leaf / R -> leaf, with the intermediates listed in the super layout only / in the sublayout / "
@@ -194,6 +205,19 @@ def replay(ctx, case):
             k = json.loads(l)
             print('  %-45s %-24s at T%+s  impl=%s  demanded=%s%s' % (k['klass'], k['input'].get('entry', ''), k['input'].get('at', ''), k['impl'], k.get('oracle'),
                                                                   '' if k['impl'] == k.get('oracle') else '   <-- differs'))
+        return
+    if ((case.get('case', case) or {}).get('klass') or '').startswith('same-key-other-certificate/'):
+        c = case.get('case', case)
+        print('recorded: %s\n  impl=%s  demanded=%s' % (json.dumps(c.get('input')), c.get('impl'), c.get('oracle')))
+        print('the observation belongs to a history within one process (same key pair, several certificates); re-running all histories:')
+        kout = os.path.join(ctx.dir, 'replay_samekey.jsonl')
+        rc, o = ctx.run([binp, 'samekey', kout], 300)
+        for l in open(kout):
+            k = json.loads(l)
+            i = k['input']
+            print('  %-44s #%d %-36s %-20s seen before: %-13s impl=%-4s demanded=%s%s' % (
+                i['history'], i['position'], i['certificate'], i['entry'], i['seen_before_for_this_key'], k['impl'], k.get('oracle'),
+                '' if k['impl'] == k.get('oracle') else '   <-- differs'))
         return
     if ((case.get('case', case) or {}).get('klass') or '').startswith('sublayout-intermediates/'):
         c = case.get('case', case)
